@@ -104,11 +104,11 @@ def diverging(name, trace):
     return max(float(np.abs(r['model'].complex_bingham.covariance_eigenvalues).max()) for r in trace) > 1e6
 
 
-def perms_for(rng, K, tier):
+def perms_for(rng, K, tier, count=3):
     allp = [p for p in itertools.permutations(range(K)) if p != tuple(range(K))]
     if tier == 'thorough' and K <= 4:
         return allp
-    idx = rng.choice(len(allp), size=min(3, len(allp)), replace=False)
+    idx = rng.choice(len(allp), size=min(count, len(allp)), replace=False)
     return [allp[int(i)] for i in idx]
 
 
@@ -116,12 +116,14 @@ def perms_for(rng, K, tier):
 _CCOUNT = [0]
 
 
-def make_case(rng, tier, i, name, aligner=False, many=False):
+def make_case(rng, tier, i, name, aligner=False, many=False, four=False):
     q = tier == 'quick'
     K = int(rng.integers(2, 5))
+    if four:
+        K = 4       # four classes: the inline alignment of the integration models searches 24 orders per bin
     D = int(rng.integers(2, 6))
     if name in mm.INTEGRATION:
-        lead = (int(rng.integers(1, 4)),)
+        lead = (9,) if four else (int(rng.integers(1, 4)),)
     elif aligner:
         lead = (int(rng.choice([3, 5])),)       # the aligners insist on an odd number of frequencies
     else:
@@ -134,8 +136,15 @@ def make_case(rng, tier, i, name, aligner=False, many=False):
         K, D = 3, 2
         N = 9
         lead = (int(rng.integers(1370, 1500)),)
-    data = mm.make_data(rng, name, K, D, N, lead, separation=float(rng.choice([0.5, 2.0, 8.0])))
+    data = mm.make_data(rng, name, K, D, N, lead, separation=0.05 if four else float(rng.choice([0.5, 2.0, 8.0])))      # four: no class structure
     lab_ = data.get('labels')
+    if four and 'embedding' in data:
+        # the two streams disagree about the classes (frames of the embedding shuffled, per bin): the best class order of a bin is
+        # then far from the identity and many orders score similarly
+        e = data['embedding'].copy()
+        for ix in np.ndindex(*e.shape[:-2]):
+            e[ix] = e[ix][rng.permutation(e.shape[-2])]
+        data['embedding'] = e
     data = {k: v for k, v in data.items() if k != 'labels'}
     if name == 'gmm' and not many and i % 14 == 3:
         # a very concentrated class next to a diffuse one (std 1e-3 .. 1e-2 vs 3 .. 8): log-densities of one observation under
@@ -175,13 +184,15 @@ def make_case(rng, tier, i, name, aligner=False, many=False):
         else:
             opts['weight_constant_axis'] = [(-3,), (-3, -1), -3][int(rng.integers(0, 3))]
     iters = int(rng.integers(1, 6 if q else 21))
+    if four:
+        iters = int(rng.integers(2, 6))
     if many:
         opts = {'weight_constant_axis': (-1,)}
         iters = int(rng.integers(1, 3))
     if name == 'cbmm':
         iters = min(iters, 5 if q else 10)
     rp = {'fn': 'perm', 'model': name, 'data': data, 'init': init, 'opts': opts, 'aligner': bool(aligner and name not in mm.INTEGRATION),
-          'iterations': iters, 'perms': [list(p) for p in perms_for(rng, K, tier)], 'pick': int(rng.integers(0, 2 ** 31)),
+          'iterations': iters, 'perms': [list(p) for p in perms_for(rng, K, tier, 9 if four else 3)], 'pick': int(rng.integers(0, 2 ** 31)),
           'reuse_trainer': bool(_CCOUNT[0] % 2)}
     label = 'relabel %s K=%d D=%d N=%d lead=%s iters=%d init=%s perms=%d%s opts=%s' % (
         name, K, D, N, lead, iters, style, len(rp['perms']), ' ALIGNER' if aligner else '', mm.describe_options(opts))
@@ -398,6 +409,8 @@ def cases(rng, tier):
     al = ['cacgmm', 'cwmm', 'cbmm', 'gcacgmm', 'vmfcacgmm']
     for i in range(10 if q else 100):
         out.append(make_case(rng, tier, i, al[i % 5], aligner=True))
+    for i in range(6 if q else 24):
+        out.append(make_case(rng, tier, i, ['gcacgmm', 'vmfcacgmm'][i % 2], aligner=True, four=True))
     for i in range(2 if q else 6):
         out.append(make_case(rng, tier, i, ['cacgmm', 'cwmm', 'cacgmm'][i % 3], many=True))
     return out
